@@ -579,6 +579,8 @@ func raftLoopRules(c *Ctx, r *Report, ids map[string]string) *readyLoop {
 func checkC03(c *Ctx, r *Report, tier string) {
 	round5(c, r, "C03")
 	round6(c, r, "C03")
+	round7(c, r, "C03")
+	round8(c, r, "C03")
 	r.Rule("C03.R1", "persist dominates apply, acknowledgement and Advance: one plain persist call per Ready taking HardState, Entries and Snapshot of the same Ready; it dominates every apply site and Advance; its error branch reaches none of them", 4)
 	r.Rule("C03.R2", "acknowledgement only from the apply tree: every function that calls Notificator.Notify is reachable from an apply root and from no RPC root / background loop", 8)
 	r.Rule("C03.R3", "a persist call that returns nil has flushed: in every batch function each return after the batch is created returns Flush()'s value or a tested non-nil error; Set/Delete results are never discarded; Cancel is deferred; the Badger options keep SyncWrites on", 8)
@@ -1255,6 +1257,7 @@ func condReadsStorage(v ssa.Value, depth int) bool {
 func checkC05(c *Ctx, r *Report, tier string) {
 	round5(c, r, "C05")
 	round6(c, r, "C05")
+	round7(c, r, "C05")
 	r.Rule("C05.R1", "send discipline (etcd/raft host contract): every send of rd.Messages is dominated by the persist call or guarded by the leader test; messages are never dropped; the leader id is assigned once per Ready before both tests", 3)
 	r.Rule("C05.R2", "persist is one plain call on the same Ready, dominates every apply site, and its failure is fatal", 4)
 	r.Rule("C05.R3", "Advance exactly once per Ready, after every apply site, on every path back to the select", 1)
